@@ -6,7 +6,7 @@
     decoder is by construction (all of them are Coq functions: structural recursion on
     the byte list or on a checked count). *)
 From Coq Require Import ZArith List Bool Lia Floats.
-From Geo Require Import Base.GoPrim Base.Bytes Gen.Codec Model.Codec.
+From Geo Require Import Base.GoPrim Base.Bytes Gen.CellID Gen.Codec Model.Codec.
 Import ListNotations.
 Local Open Scope Z_scope.
 
@@ -93,6 +93,19 @@ Proof.
   intros d G. unfold read_point. do 3 rd. exact G2.
 Qed.
 
+Lemma read_point_coord_good d : good d -> good (snd (read_point_coord d)).
+Proof.
+  intros G. unfold read_point_coord. rd.
+  destruct (negb (failed d0) && nonfinite_bits x); cbn [snd]; auto. now apply good_set_err.
+Qed.
+Lemma read_vertex_good : preserves read_vertex.
+Proof.
+  intros d G. unfold read_vertex.
+  pose proof (read_point_coord_good d G) as G1. destruct (read_point_coord d) as [x d1]. cbn [snd] in G1.
+  pose proof (read_point_coord_good d1 G1) as G2. destruct (read_point_coord d1) as [y d2]. cbn [snd] in G2.
+  pose proof (read_point_coord_good d2 G2) as G3. destruct (read_point_coord d2) as [z d3]. exact G3.
+Qed.
+
 Lemma read_i8_good d : good d -> good (snd (read_i8 d)).
 Proof. intros G. unfold read_i8. rd. exact G0. Qed.
 Lemma read_i64_good d : good d -> good (snd (read_i64 d)).
@@ -136,6 +149,13 @@ Qed.
 Lemma decode_cellid_good : preserves decode_cellid_body.
 Proof. intros d G. unfold decode_cellid_body. rd. exact G0. Qed.
 
+Lemma decode_cell_good : preserves decode_cell_body.
+Proof.
+  intros d G. unfold decode_cell_body. rd.
+  destruct (failed d0); cbn [snd]; auto.
+  destruct (negb (s2_CellID_IsValid x)); cbn [snd]; auto. now apply good_set_err.
+Qed.
+
 Lemma decode_cellunion_good : preserves decode_cellunion_body.
 Proof.
   intros d G. unfold decode_cellunion_body.
@@ -146,7 +166,7 @@ Proof.
   destruct (failed d2) eqn:F2; auto.
   destruct ((n <? 0) || (s2_CellUnion_decode_maxCells <? n)) eqn:C; [apply good_set_err; auto|].
   apply orb_false_iff in C. destruct C as [C1 C2]. apply Z.ltb_ge in C1, C2.
-  apply read_many_good; [exact decode_cellid_good|].
+  apply read_many_good; [exact decode_cell_good|].
   apply good_go_make; auto.
 Qed.
 
@@ -158,7 +178,7 @@ Proof.
   destruct (negb (v =? s2_encodingVersion)); [apply good_set_err; auto|].
   rd. destruct (failed d0) eqn:F2; auto.
   destruct (s2_maxEncodedVertices <? x) eqn:C; [apply good_set_err; auto|]. apply Z.ltb_ge in C.
-  apply read_many_good; [exact read_point_good|].
+  apply read_many_good; [exact read_vertex_good|].
   apply good_go_make; auto. intros _. cbn [alloc_limit]. lia.
 Qed.
 
@@ -171,8 +191,8 @@ Proof.
   destruct (s2_maxEncodedVertices <? x0) eqn:C; [apply good_set_err; auto|]. apply Z.ltb_ge in C.
   assert (G2 : good (go_make AVertices x0 d1)).
   { apply good_go_make; auto. intros _. cbn [alloc_limit]. lia. }
-  pose proof (read_many_good read_point x0 read_point_good _ G2) as G3.
-  destruct (read_many read_point x0 (go_make AVertices x0 d1)) as [vs d2]. cbn [snd] in G3.
+  pose proof (read_many_good read_vertex x0 read_vertex_good _ G2) as G3.
+  destruct (read_many read_vertex x0 (go_make AVertices x0 d1)) as [vs d2]. cbn [snd] in G3.
   pose proof (read_bool_good d2 G3) as G4. destruct (read_bool d2) as [oi d3]. cbn [snd] in G4.
   rd.
   pose proof (decode_rect_good d4 G5) as G6. destruct (decode_rect_body d4) as [b d5]. exact G6.
@@ -286,8 +306,8 @@ Proof.
   destruct ((wrap_i64 x <? 0) || (n <=? wrap_i64 x)) eqn:C; cbn [snd]; [apply good_set_err; auto|].
   apply orb_false_iff in C. destruct C as [C1 C2]. apply Z.ltb_ge in C1. apply Z.leb_gt in C2.
   assert (G1 : good (go_index (wrap_i64 x) n d0)) by (apply good_go_index; auto).
-  pose proof (read_point_good _ G1) as G2.
-  destruct (read_point (go_index (wrap_i64 x) n d0)) as [pt d1]. exact G2.
+  pose proof (read_vertex_good _ G1) as G2.
+  destruct (read_vertex (go_index (wrap_i64 x) n d0)) as [pt d1]. exact G2.
 Qed.
 
 Lemma decode_points_compressed_good level n d : 0 <= n <= s2_maxEncodedVertices -> good d ->
@@ -462,14 +482,16 @@ Example decode_point_example :
   decode_point (1 :: le_bytes 8 4607182418800017408 ++ le_bytes 8 0 ++ le_bytes 8 0) = Ok (4607182418800017408, 0, 0).
 Proof. vm_compute. reflexivity. Qed.
 
-(** * A decoded Cell is not always usable (finding on the unchanged tree)
-    Cell.Decode accepts any 8 bytes; an id whose top three bits are 6 or 7 has no face, and
-    RectBound indexes the 6-row axis table with it. *)
-Lemma decode_usable_cell_refuted :
-  exists bs id, bytes_ok bs /\ decode_cell bs = Ok id /\ cell_rect_bound_axes id = Panic.
+(** * A decoded Cell is usable (since 8beed88 Cell.decode rejects invalid ids)
+    Before the repair Cell.Decode accepted any 8 bytes; an id whose top three bits are 6 or 7
+    has no face, and RectBound indexes the 6-row axis table with it. *)
+Lemma decode_usable_cell_old_refuted :
+  exists bs id, bytes_ok bs /\ run decode_cellid_body bs = Ok id /\ cell_rect_bound_axes id = Panic
+                /\ decode_cell bs = Err.
 Proof.
-  exists [72; 188; 220; 92; 34; 192; 91; 244]. eexists. split; [|split].
+  exists [72; 188; 220; 92; 34; 192; 91; 244]. eexists. split; [|split; [|split]].
   - repeat constructor; unfold byte_ok; lia.
+  - vm_compute. reflexivity.
   - vm_compute. reflexivity.
   - vm_compute. reflexivity.
 Qed.
@@ -484,14 +506,179 @@ Proof.
   destruct (6 <=? id / 2 ^ 61) eqn:E2; [apply Z.leb_le in E2; lia|]. discriminate.
 Qed.
 
-(** * A decoded full polygon cannot be queried (finding on the unchanged tree) *)
-Lemma decode_usable_full_polygon_refuted :
-  exists bs ls, bytes_ok bs /\ decode_polygon bs = Ok (DCompressed ls) /\ polygon_query_entry ls = Panic.
+(** a valid id has a face *)
+Lemma isvalid_face id : 0 <= id < 2 ^ 64 -> s2_CellID_IsValid id = true -> 0 <= id < 6 * 2 ^ 61.
 Proof.
-  exists [4; 0; 1; 1; 11; 0; 1; 0]. eexists. split; [|split].
+  intros Hid H. unfold s2_CellID_IsValid in H. apply andb_true_iff in H. destruct H as [H _].
+  apply Z.ltb_lt in H. unfold s2_CellID_Face, go_shr in H. cbn [Z.ltb Z.compare] in H.
+  assert (Hw : wrap_u64 id = id) by (unfold wrap_u64, wrap_u; now apply Z.mod_small).
+  rewrite Hw in H. rewrite Z.shiftr_div_pow2 in H by lia.
+  assert (Hq : 0 <= id / 2 ^ 61 < 8).
+  { split; [apply Z.div_pos; lia|]. apply Z.div_lt_upper_bound; [lia|]. change (2 ^ 61 * 8) with (2 ^ 64). lia. }
+  rewrite wrap_i64_small in H by (change (2 ^ 63) with 9223372036854775808; lia).
+  split; [lia|]. change (2 ^ 61) with 2305843009213693952 in *. Z.div_mod_to_equations. lia.
+Qed.
+
+Lemma decode_cell_valid bs id : bytes_ok bs -> decode_cell bs = Ok id -> 0 <= id < 2 ^ 64 /\ s2_CellID_IsValid id = true.
+Proof.
+  intros Hb. unfold decode_cell, run, decode_cell_body. unfold read_u64.
+  pose proof (good_read_le 8 (dec_init bs) (good_init bs Hb)) as [G R].
+  destruct (read_le 8 (dec_init bs)) as [x d]. cbn [fst snd] in *.
+  destruct (failed d) eqn:F.
+  - unfold failed in F. destruct (d_st d); discriminate.
+  - destruct (s2_CellID_IsValid x) eqn:V; cbn [negb].
+    + destruct (d_st d); try discriminate. intros H. injection H as <-. split; auto.
+    + pose proof (failed_set_err d) as Fs. unfold failed in Fs. destruct (d_st (set_err d)); discriminate.
+Qed.
+
+Lemma decode_usable_cell bs id : bytes_ok bs -> decode_cell bs = Ok id -> cell_rect_bound_axes id <> Panic.
+Proof.
+  intros Hb H. destruct (decode_cell_valid bs id Hb H) as [R V].
+  apply cell_rect_bound_axes_valid. now apply isvalid_face.
+Qed.
+
+(** every id of a decoded CellUnion is valid as well *)
+Lemma cellunion_ids_valid_inv n : forall d,
+  let s := rep many_stop (many_body decode_cell_body) n ([], d) in
+  failed (snd s) = false -> Forall (fun id => s2_CellID_IsValid id = true) (fst s).
+Proof.
+  intros d.
+  assert (H : forall s, (failed (snd s) = false -> Forall (fun id => s2_CellID_IsValid id = true) (fst s)) ->
+              many_stop s = false ->
+              (failed (snd (many_body decode_cell_body s)) = false ->
+               Forall (fun id => s2_CellID_IsValid id = true) (fst (many_body decode_cell_body s)))).
+  { intros [acc d0] IH St. unfold many_stop in St. cbn [fst snd] in *. unfold many_body, decode_cell_body. cbn [fst snd].
+    destruct (read_u64 d0) as [x d1]. destruct (failed d1) eqn:F1; cbn [fst snd].
+    - intros F. rewrite F1 in F. discriminate.
+    - destruct (s2_CellID_IsValid x) eqn:V; cbn [negb fst snd].
+      + intros _. constructor; auto.
+      + rewrite failed_set_err. discriminate. }
+  cbv zeta. apply (rep_inv many_stop (many_body decode_cell_body)
+    (fun s => failed (snd s) = false -> Forall (fun id => s2_CellID_IsValid id = true) (fst s))); auto.
+  intros _. constructor.
+Qed.
+
+Lemma run_ok_not_failed {A} (f : dec -> A * dec) bs v : run f bs = Ok v ->
+  failed (snd (f (dec_init bs))) = false /\ fst (f (dec_init bs)) = v.
+Proof.
+  unfold run. destruct (f (dec_init bs)) as [w d]. cbn [fst snd]. unfold failed.
+  destruct (d_st d); try discriminate. intros H. injection H as <-. auto.
+Qed.
+
+Lemma decode_cellunion_valid bs ids : decode_cellunion bs = Ok ids ->
+  Forall (fun id => s2_CellID_IsValid id = true) ids.
+Proof.
+  intros H. apply run_ok_not_failed in H. destruct H as [F E]. revert F E.
+  unfold decode_cellunion_body.
+  destruct (read_i8 (dec_init bs)) as [v d1]. destruct (failed d1) eqn:F1; cbn [fst snd].
+  { intros F. rewrite F1 in F. discriminate. }
+  destruct (negb (v =? s2_encodingVersion)); cbn [fst snd].
+  { rewrite failed_set_err. discriminate. }
+  destruct (read_i64 d1) as [n d2]. destruct (failed d2) eqn:F2; cbn [fst snd].
+  { intros F. rewrite F2 in F. discriminate. }
+  destruct ((n <? 0) || (s2_CellUnion_decode_maxCells <? n)); cbn [fst snd].
+  { rewrite failed_set_err. discriminate. }
+  unfold read_many. cbn [fst snd]. intros F <-.
+  apply Forall_rev. now apply (cellunion_ids_valid_inv n (go_make ACells n d2)).
+Qed.
+
+(** * Vertices of a decoded loop or polyline are finite (since 4fc5f5f) *)
+Definition finite_point (p : point) : Prop :=
+  let '(x, y, z) := p in nonfinite_bits x = false /\ nonfinite_bits y = false /\ nonfinite_bits z = false.
+
+Lemma read_many_forall {A} (rd1 : dec -> A * dec) (P : A -> Prop) n d :
+  (forall d0, failed (snd (rd1 d0)) = false -> P (fst (rd1 d0))) ->
+  failed (snd (read_many rd1 n d)) = false -> Forall P (fst (read_many rd1 n d)).
+Proof.
+  intros H. unfold read_many. cbn [fst snd]. intros F. apply Forall_rev. revert F.
+  apply (rep_inv many_stop (many_body rd1) (fun s => failed (snd s) = false -> Forall P (fst s))).
+  - intros [acc d0] IH St. unfold many_stop in St. cbn [fst snd] in *. unfold many_body. cbn [fst snd].
+    specialize (H d0). destruct (rd1 d0) as [x d1]. cbn [fst snd] in *. intros F. constructor; auto.
+  - intros _. constructor.
+Qed.
+
+Lemma read_point_coord_sticky d : failed d = true -> read_point_coord d = (0, d).
+Proof. intros F. unfold read_point_coord, read_u64. rewrite read_le_failed by auto. now rewrite F. Qed.
+
+Lemma read_point_coord_finite d : failed (snd (read_point_coord d)) = false ->
+  nonfinite_bits (fst (read_point_coord d)) = false /\ failed d = false.
+Proof.
+  unfold read_point_coord. destruct (failed d) eqn:F0.
+  { unfold read_u64. rewrite read_le_failed by auto. rewrite F0. cbn. rewrite F0. discriminate. }
+  destruct (read_u64 d) as [x d1]. destruct (failed d1) eqn:F1; cbn [negb andb fst snd].
+  - rewrite F1. discriminate.
+  - destruct (nonfinite_bits x) eqn:N; cbn [fst snd]; [rewrite failed_set_err; discriminate|auto].
+Qed.
+
+Lemma read_vertex_finite d : failed (snd (read_vertex d)) = false -> finite_point (fst (read_vertex d)).
+Proof.
+  unfold read_vertex.
+  pose proof (read_point_coord_finite d) as H1. destruct (read_point_coord d) as [x d1]. cbn [fst snd] in H1.
+  pose proof (read_point_coord_finite d1) as H2. destruct (read_point_coord d1) as [y d2]. cbn [fst snd] in H2.
+  pose proof (read_point_coord_finite d2) as H3. destruct (read_point_coord d2) as [z d3]. cbn [fst snd] in *.
+  intros F. destruct (H3 F) as [Z3 F2]. destruct (H2 F2) as [Z2 F1]. destruct (H1 F1) as [Z1 _]. repeat split; auto.
+Qed.
+
+Lemma decode_polyline_finite bs ps : decode_polyline bs = Ok ps -> Forall finite_point ps.
+Proof.
+  intros H. apply run_ok_not_failed in H. destruct H as [F E]. revert F E.
+  unfold decode_polyline_body.
+  destruct (read_i8 (dec_init bs)) as [v d1]. destruct (failed d1) eqn:F1; cbn [fst snd].
+  { intros F. rewrite F1 in F. discriminate. }
+  destruct (negb (v =? s2_encodingVersion)); cbn [fst snd].
+  { rewrite failed_set_err. discriminate. }
+  destruct (read_u32 d1) as [n d2]. destruct (failed d2) eqn:F2; cbn [fst snd].
+  { intros F. rewrite F2 in F. discriminate. }
+  destruct (s2_maxEncodedVertices <? n); cbn [fst snd].
+  { rewrite failed_set_err. discriminate. }
+  intros F <-. apply read_many_forall; auto. exact read_vertex_finite.
+Qed.
+
+(** reads after a failure leave the reader as it is *)
+Lemma read_bool_sticky d : failed d = true -> snd (read_bool d) = d.
+Proof. intros F. unfold read_bool, read_i8, read_u8. now rewrite read_le_failed. Qed.
+Lemma decode_rect_sticky d : failed d = true -> snd (decode_rect_body d) = d.
+Proof.
+  intros F. unfold decode_rect_body, read_u8, read_u64. rewrite read_le_failed by auto. rewrite F.
+  rewrite andb_false_r. now rewrite !read_le_failed.
+Qed.
+
+Lemma decode_loop_finite bs l : decode_loop bs = Ok l -> Forall finite_point (l_vertices l).
+Proof.
+  intros H. apply run_ok_not_failed in H. destruct H as [F E]. revert F E.
+  unfold decode_loop_body.
+  destruct (read_u8 (dec_init bs)) as [v d1]. destruct (failed d1) eqn:F1; cbn [fst snd].
+  { intros F. rewrite F1 in F. discriminate. }
+  destruct (negb (wrap_i8 v =? s2_encodingVersion)); cbn [fst snd].
+  { rewrite failed_set_err. discriminate. }
+  destruct (read_u32 d1) as [n d2].
+  destruct (s2_maxEncodedVertices <? n); cbn [fst snd].
+  { rewrite failed_set_err. discriminate. }
+  pose proof (read_many_forall read_vertex finite_point n (go_make AVertices n d2) read_vertex_finite) as M.
+  destruct (read_many read_vertex n (go_make AVertices n d2)) as [vs d3]. cbn [fst snd] in M.
+  destruct (failed d3) eqn:F3.
+  - (* a failed reader stays failed *)
+    pose proof (read_bool_sticky d3 F3) as S1. destruct (read_bool d3) as [oi d4]. cbn [snd] in S1. subst d4.
+    assert (S2 : read_u32 d3 = (0, d3)) by (unfold read_u32; now rewrite read_le_failed).
+    rewrite S2. pose proof (decode_rect_sticky d3 F3) as S3. destruct (decode_rect_body d3) as [b d5]. cbn [snd] in S3. subst d5.
+    cbn [fst snd]. intros F. rewrite F3 in F. discriminate.
+  - destruct (read_bool d3) as [oi d4]. destruct (read_u32 d4) as [dep d5]. destruct (decode_rect_body d5) as [b d6].
+    cbn [fst snd]. intros _ <-. cbn [l_vertices]. now apply M.
+Qed.
+
+(** * A decoded full polygon can be queried (since 54a5f02 it has its index)
+    Before the repair initEdgesAndIndex returned early for the full polygon and left the index nil. *)
+Definition polygon_query_entry_54a5f02_old (ls : list cloop) : result unit :=
+  if cloops_full ls then Panic else Ok tt.
+Lemma decode_usable_full_polygon_old_refuted :
+  exists bs ls, bytes_ok bs /\ decode_polygon bs = Ok (DCompressed ls) /\ polygon_query_entry_54a5f02_old ls = Panic
+                /\ polygon_query_entry ls = Ok tt.
+Proof.
+  exists [4; 0; 1; 1; 11; 0; 1; 0]. eexists. split; [|split; [|split]].
   - repeat constructor; unfold byte_ok; lia.
   - vm_compute. reflexivity.
   - vm_compute. reflexivity.
+  - vm_compute. reflexivity.
 Qed.
-Lemma polygon_query_entry_not_full ls : cloops_full ls = false -> polygon_query_entry ls = Ok tt.
-Proof. unfold polygon_query_entry. now intros ->. Qed.
+Lemma polygon_query_entry_total ls : polygon_query_entry ls = Ok tt.
+Proof. unfold polygon_query_entry, polygon_has_index. now destruct (cloops_full ls). Qed.
